@@ -41,7 +41,7 @@ class Contract(object):
     def __init__(self, key, params=None, types=None, env=None, requires=None, ensures=None, raises=None,
                  xensures=None, modifies=None, ghost=None, loops=None, inline=False, pure=False,
                  result_type=None, fresh_result=None, assumes=None, note=None, opaque_calls=None,
-                 covers=None, ghost_init=None, callbacks=None, preserves=None, protected=None, params_rename=None, ghost_modifies=None, distinct=None, covers_exit=None, ghost_post=None):
+                 covers=None, ghost_init=None, callbacks=None, preserves=None, protected=None, params_rename=None, ghost_modifies=None, distinct=None, covers_exit=None, ghost_post=None, ghost_pre=None):
         self.key = key
         self.params = params              # for externals: list of parameter names (defaults None)
         self.types = types or {}          # param name -> 'str' | 'int' | 'bool' | 'float' | 'dict' | 'list' | 'obj' | 'any' | 'json'
@@ -70,6 +70,8 @@ class Contract(object):
         # ghost snapshot == heap at return, under a condition:  {ghost: cond text}
         self.ghost_post = {k: ast.parse(v, mode="eval").body for k, v in (ghost_post or {}).items()}
         self.covers_exit = _clauses(covers_exit)
+        # ghost updates that happen on EVERY outcome of the call, also when it raises (e.g. "an attempt was made")
+        self.ghost_pre = {k: ast.parse(v, mode="eval").body for k, v in (ghost_pre or {}).items()}
         self.distinct = [ast.parse(m, mode="eval").body for m in (distinct or [])]
         self.ghost_modifies = ghost_modifies   # None: any ghost may change; list: only these (plus `ghost=` keys)
         self.preserves = (preserves if preserves == "PROTECTED" else
